@@ -179,6 +179,8 @@ def _evaluate_require(ast, file_path, package_lua, lua_path=None):
                 pos = 0
                 for s in reqd_lua.root.stats:
                     if (isinstance(s, parser.StatFunction) and
+                            len(s.funcname.namepath) == 1 and
+                            s.funcname.methodname is None and
                             s.funcname.namepath[0].value in GAME_LOOP_FUNCTION_NAMES):  # noqa: E501
                         start_pos = s.start_pos
                         while isinstance(tokens[start_pos],
